@@ -221,6 +221,9 @@ func EvalStratifiedProgramWithStats(programInfo *analysis.ProgramInfo,
 	}
 	if opts.createdFactLimit > 0 {
 		opts.totalFactLimit = store.EstimateFactCount() + opts.createdFactLimit
+		if opts.temporalStore != nil {
+			opts.totalFactLimit += opts.temporalStore.EstimateFactCount()
+		}
 	}
 	// Set default evaluation time if not specified
 	evalTime := opts.evalTime
@@ -609,8 +612,8 @@ func (e *engine) eval() error {
 			if err := e.mergeDelta(); err != nil {
 				return err
 			}
-			if e.options.totalFactLimit > 0 && e.store.EstimateFactCount() > e.options.totalFactLimit {
-				return fmt.Errorf("fact size limit reached %d > %d", e.store.EstimateFactCount(), e.options.totalFactLimit)
+			if e.options.totalFactLimit > 0 && e.factCount() > e.options.totalFactLimit {
+				return fmt.Errorf("fact size limit reached %d > %d", e.factCount(), e.options.totalFactLimit)
 			}
 			if !incrementalFactAdded {
 				break
@@ -808,8 +811,8 @@ func (e *engine) oneStepEvalClause(clause ast.Clause) ([]DerivedTemporalFact, er
 			}); err != nil {
 			return nil, err
 		}
-		if e.options.totalFactLimit > 0 && e.store.EstimateFactCount() > e.options.totalFactLimit {
-			return nil, fmt.Errorf("fact size limit reached evaluting %q %d > %d", clause.Head.String(), e.store.EstimateFactCount(), e.options.totalFactLimit)
+		if e.options.totalFactLimit > 0 && e.factCount() > e.options.totalFactLimit {
+			return nil, fmt.Errorf("fact size limit reached evaluting %q %d > %d", clause.Head.String(), e.factCount(), e.options.totalFactLimit)
 		}
 	}
 	return facts, nil
@@ -891,6 +894,16 @@ func (e *engine) oneStepEvalPremise(premise ast.Term, subst unionfind.UnionFind,
 		return premiseTemporalLiteral(tl, e.temporalStore, e.evalTime, subst)
 	}
 	return nil, nil
+}
+
+// factCount returns the number of facts in the store plus, when a temporal
+// store is configured, the number of temporal facts. The fact limit covers both.
+func (e *engine) factCount() int {
+	n := e.store.EstimateFactCount()
+	if e.temporalStore != nil {
+		n += e.temporalStore.EstimateFactCount()
+	}
+	return n
 }
 
 func (e *engine) newContext() QueryContext {
